@@ -1474,7 +1474,7 @@ def _inline_new_constants_once(tree, rel):
 
         def visit_Name(self, n):
             if isinstance(n.ctx, ast.Load) and n.id in consts and n.id not in self.shadow:
-                new = copy.deepcopy(consts[n.id])
+                new = copy_tree(consts[n.id])          # (not deepcopy: the shared ctx / operator objects of the ast module may carry links)
                 for x in ast.walk(new):
                     ast.copy_location(x, n)
                 return new
